@@ -32,6 +32,7 @@ def run(ctx):
     ctx.units["conjure_codegen bodies"] = len(cg.bodies)
     spec = json.load(open(os.path.join(core.VERIF, "spec", "wire_tables.json")))
     I = minterp.Interp(F, cg, inline=lambda d, i: False)
+    I.loop_recurse = TY
     tyv = [v["name"] for v in F.adt(TY)["variants"]]
     ctxb = {b.name: b for b in cg.bodies if b.impl and not b.trait and (ty_adt(b.self_ty) or "") == "conjure_codegen::context::Context" and b.kind == "assoc_fn"}
     # ---------------- R2.1
@@ -92,6 +93,7 @@ def run(ctx):
         for vi, vn in enumerate(tdn):
             I2 = minterp.Interp(F, cg, inline=lambda d_, rid, bid=b.id: rid != bid and rid.startswith("conjure_codegen::context::") and rid.split("::")[-1] not in preds, max_depth=4)
             I2.oracle = {TD: vi}
+            I2.loop_recurse = TY
             args = [("sym", "self")] + [("sym", f"a{j}") for j in range(b.argc - 2)] + [minterp.adt(TY, kref, [("sym", "name")])]
             try:
                 got_ = classify(I2, I2.run(b, args), pred)
@@ -304,6 +306,8 @@ def run(ctx):
 def classify(I, r, pred):
     if isinstance(r, bool):
         return r
+    if isinstance(r, tuple) and r and r[0] == "recurse":
+        return "recurse(" + minterp.show(I, r[1]) + ")"
     if minterp.is_adt(r) and r[1] == "core::option::Option":
         return "None" if r[2] == 0 else "Some"
     if isinstance(r, tuple) and r and r[0] == "call":
